@@ -86,6 +86,10 @@ DIRECTED = [
     ("async-wait", "mbox 2\nactor s0.1 s1.2 c1 c0\nactor r1 r0 c0 c1\n", []),
 ]
 
+# the quick tier keeps one witness per open finding and a few programs that are right today
+QUICK_DIRECTED = {"random-2x2", "mutex-3", "cond-timedwait-vs-notify-assert", "cond-lost-wakeup", "test-vs-send", "waitany-2",
+                  "testany-ready", "trylock-assert", "random-join", "recv-unmatched", "mbox-2to1", "async-wait", "lock-order"}
+
 REDUCTIONS = ("dpor", "sdpor", "odpor")
 
 
@@ -269,10 +273,11 @@ class Evaluator:
 
 def generate(ctx):
     """The cases of one run: directed + core + comm, all derived from the seed."""
-    cases = [{"name": "d-" + n, "spec": s, "pop": "directed", "pinned": pin} for n, s, pin in DIRECTED]
     quick = ctx.tier == "quick"
-    ncore = ctx.size(quick=10, thorough=160)
-    ncomm = ctx.size(quick=6, thorough=120)
+    cases = [{"name": "d-" + n, "spec": s, "pop": "directed", "pinned": pin} for n, s, pin in DIRECTED
+             if not quick or n in QUICK_DIRECTED]
+    ncore = ctx.size(quick=4, thorough=160)
+    ncomm = ctx.size(quick=3, thorough=120)
     max_paths = 80 if quick else 1200
     bound = 120 if quick else 2500
     for i in range(ncore):
